@@ -140,7 +140,7 @@ func CheckAccept(prop string, c *ParseCase, st *Stats) (*Violation, *Outcome, Cl
 		return Violf("exit(%d) under ContinueOnError on spec %q argv %q", *out.Exit, c.SpecStr, c.Argv), &out, cl
 	}
 	if out.Accept != cl.Accept {
-		if out.Accept == cl.Greedy && KnownClass(prop, F3Class) {
+		if out.Accept == cl.Greedy && KnownClassAny(F3Class) {
 			st.Class("known:" + F3Class)
 			return nil, nil, cl
 		}
